@@ -468,6 +468,9 @@ func c07r5(c *core.Ctx) {
 					return false
 				}
 				// the tested bit must be the token parameter
+				if ff.Sig == nil || ff.Sig.Params().Len() == 0 {
+					return false
+				}
 				if id, ok := ast.Unparen(call.Args[0]).(*ast.Ident); !ok || m.Info.ObjectOf(id) != ff.Sig.Params().At(0) {
 					return false
 				}
@@ -506,6 +509,7 @@ func singleFuncGuard(m *core.Model, f *core.Func, spec core.GuardSpec) []core.Wi
 	if spec.SkipCallee == nil {
 		spec.SkipCallee = func(*core.Func) bool { return true }
 	}
+	spec.Only = f
 	res := m.MustPrecede(spec)
 	return res.Unguarded[f]
 }
